@@ -20,9 +20,13 @@ for p in props:
     pid=p['id']
     if pid in claimed:
         r=claimed[pid]
+        scope=r.get("scope")
+        prefix={"full":"PROOF of the statement as given (for the code as it is now; known findings listed in known_findings.json are the stated exceptions). ",
+                "partial":"PARTIAL PROOF: theorems cover part of the statement (exclusions are named below and in DESIGN.md 11); the rest is decided by the model/implementation correspondence run, which is exploration, not proof. ",
+                None:""}[scope]
         m['checks'].append({"property_id":pid,"quick_cmd":f"./check {pid} --tier quick","thorough_cmd":f"./check {pid} --tier thorough",
           "evidence_file":f"/verif/evidence/{pid}.json","replay_cmd_template":f"./check {pid} --replay {{path}}","engine":"lean-proof+correspondence",
-          "level_claimed":{"category":r.get("level","proof"),"text":r.get("level_text") or r.get("what_is_proved",""),"design_ref":r.get("design_ref","DESIGN.md section 6")},
+          "level_claimed":{"category":r.get("level","proof"),"text":prefix+(r.get("level_text") or r.get("what_is_proved","")),"design_ref":r.get("design_ref","DESIGN.md sections 6 and 11")},
           "level_note":r.get("level_note","Trusted: Lean kernel (axioms propext, Classical.choice, Quot.sound only), tools/extract, the correspondence harness; modelled not verified: "+"; ".join(r.get("modelled_not_verified",[]))),
           "technique":r.get("technique","Lean 4 theorems over a model tied to the code by regenerated tables and a model/implementation correspondence run")})
     else:
